@@ -92,6 +92,50 @@ def multi_input(ctx, h):
     return ok, tot
 
 
+def handled_failures(ctx, h):
+    """a libdw failure that a word has handled (an address asked of a DIE that has none, a name of a nameless DIE …) must not
+    reach a later, unrelated sub-expression: `[PRE] (|X| POST)` yields what `[] (|X| POST)` yields.  (libdw keeps the last
+    error of the thread until it is asked for.)"""
+    from . import dwcorr
+    fs = dwcorr.Forests(ctx)
+    rng = ctx.rng
+    PRE = ["D entry address", "D entry (low, high)", "D entry @AT_high_pc", "D entry name", "D entry @AT_ranges", "D unit root address",
+           "D entry @AT_decl_file", "D entry attribute ?(form == DW_FORM_addr) address"]
+    POST = ["D entry @AT_const_value", "D entry [attribute ?(label == DW_AT_const_value) value]", "D entry (name, @AT_type name)",
+            "D entry ?(@AT_const_value) offset", "D entry @AT_type @AT_encoding"]
+    n = 10 if ctx.tier == "quick" else 150
+    ok = tot = 0
+    try:
+        # past failures first (F23)
+        import base64, glob, json, os
+        todo = []
+        for cf in sorted(glob.glob(os.path.join(common.VERIF, "corpus", "C12", "*.json"))):
+            c = json.load(open(cf))
+            path = os.path.join(fs.dir, os.path.basename(cf)[:-5] + ".o")
+            open(path, "wb").write(base64.b64decode(c["object_b64"]))
+            todo.append((None, path, [(c["pre"], c["post"])]))
+        for k in range(n):
+            desc, path = fs.make(rng, max_units=2, const_blocks=0.6, extras=0.3)
+            todo.append((desc, path, [(rng.choice(PRE), rng.choice(POST)) for _ in range(3)] + [(p, POST[0]) for p in PRE[:3]]))
+        for desc, path, pairs in todo:
+            for pre, post in pairs:
+                qa = "(|D| [] (|X| %s))" % post
+                qb = "(|D| [%s] (|X| %s))" % (pre, post)
+                recs, crashes = fs.query(path, [qa, qb])
+                tot += 1
+                if crashes or (recs[0].res, recs[0].err) != (recs[1].res, recs[1].err):
+                    ctx.violation("after `%s`, `%s` yields %s / %s; on its own it yields %s / %s"
+                                  % (pre, post, recs[1].res[:2] if len(recs) > 1 else None, recs[1].err if len(recs) > 1 else crashes,
+                                     recs[0].res[:2], recs[0].err),
+                                  {"stream": "C12-handled-failures", "input": fs.inp(desc, path, qb), "got": [recs[1].res[:5], recs[1].err] if len(recs) > 1 else None,
+                                   "expected": [recs[0].res[:5], recs[0].err], "theorem": "ZwVerif.C12.exec_independent"})
+                else:
+                    ok += 1
+    finally:
+        fs.cleanup()
+    return ok, tot
+
+
 def dwarf_histories(ctx, h):
     """histories over one compiled DWARF query with all executions on the same Dwarf value, asked about DIEs of later units
     first; every pull compared with a fresh run on a freshly opened Dwarf"""
@@ -243,6 +287,9 @@ def run(ctx):
                           {"stream": "C12-cross-compilation", "input": {"first": a, "second": b}, "got": ra[1].raw[:6] if len(ra) > 1 else None,
                            "expected": rb[0].raw[:6] if rb else None, "theorem": "ZwVerif.C12.static_state_audit"})
     dok, dpulls, dn = (0, 0, 0) if ctx.replay else dwarf_histories(ctx, h)
+    hok, htot = (0, 0) if ctx.replay else handled_failures(ctx, h)
+    ctx.cov["handled_failure_pairs_ok"] = hok
+    ctx.cov["handled_failure_pairs"] = htot
     mok, mtot = (0, 0) if ctx.replay else multi_input(ctx, h)
     ctx.cov["multi_input_streams_ok"] = mok
     ctx.cov["multi_input_streams"] = mtot
